@@ -9,6 +9,7 @@ import (
 	"reservoir/metrics"
 	"reservoir/utils/bytesize"
 	"reservoir/utils/duration"
+	"reservoir/utils/verifhook"
 	"slices"
 	"sync"
 	"time"
@@ -68,10 +69,12 @@ func (j *cacheJanitor[MetadataT]) start(ctx context.Context) {
 				j.cleanExpiredEntries()
 				j.ensureCacheSize()
 				metrics.Global.Cache.CleanupRuns.Increment()
+				verifhook.Emit("cycle", "", 0, 0)
 				slog.Info("Cache cleanup cycle complete")
 			case newInterval := <-j.intervalChanged:
 				j.interval = newInterval
 				ticker.Reset(j.interval)
+				verifhook.Emit("interval", "", int64(newInterval), 0)
 				slog.Info("Cache cleanup ticker reset", "new_interval", j.interval)
 			case <-j.stopChan:
 				slog.Info("Cache cleanup task stopped")
@@ -115,10 +118,12 @@ func (j *cacheJanitor[MetadataT]) cleanExpiredEntries() {
 
 	for _, key := range keysToRemove {
 		slog.Info("Removing expired cache entry for key", "key", key.Hex)
+		verifhook.Yield("clean_visit", key.Hex)
 
 		lock := j.cacheFns.getLock(key)
 		locked := lock.TryLock()
 		if !locked {
+			verifhook.Emit("clean_skip", key.Hex, 0, 0)
 			slog.Info("Failed to acquire lock for key", "key", key.Hex)
 			continue
 		}
@@ -132,6 +137,7 @@ func (j *cacheJanitor[MetadataT]) cleanExpiredEntries() {
 
 		slog.Info("Removed expired cache entry for key", "key", key.Hex)
 	}
+	verifhook.Yield("clean_done", "")
 
 	endCacheSize := j.cacheFns.getCacheSize()
 	metrics.Global.Cache.BytesCached.Set(endCacheSize)
@@ -179,6 +185,7 @@ func (j *cacheJanitor[MetadataT]) evict(maxCacheBytes int64) {
 	slog.Info("Target size for eviction", "target_size", bytesize.ByteSize(targetSize))
 	evictions := 0
 	for _, candidate := range candidates {
+		verifhook.Yield("evict_visit", candidate.key.Hex)
 		if j.cacheFns.getCacheSize() <= targetSize {
 			break
 		}
@@ -196,6 +203,7 @@ func (j *cacheJanitor[MetadataT]) evict(maxCacheBytes int64) {
 			lock.Unlock()
 		} else {
 			slog.Info("Failed to acquire lock for cache entry", "key", candidate.key.Hex)
+			verifhook.Emit("evict_skip", candidate.key.Hex, 0, 0)
 			continue
 		}
 	}
